@@ -67,7 +67,15 @@ def concretise(s, rng):
             if s["ueip"]:
                 pk.append(L("UEIPAddress", [2] + octs(rng, 4)))
             for _ in range(s["nsdf"]):
-                r = checks.fd_random_rule(rng)
+                # a third of the filters repeat a string used earlier in the run (uplink and downlink alike): the
+                # translation of a string must not depend on what was translated before
+                pool = rng.__dict__.setdefault("_sdfpool", [])
+                if pool and rng.random() < 0.35:
+                    r = rng.choice(pool)
+                else:
+                    r = checks.fd_random_rule(rng)
+                    if len(pool) < 12:
+                        pool.append(r)
                 txt = checks.fd_render(r).encode()
                 bid = rng.random() < 0.3
                 v = [1 | (16 if bid else 0), 0, len(txt) >> 8, len(txt) & 255] + list(txt) + (octs(rng, 4) if bid else [])
